@@ -67,8 +67,15 @@ Definition ex2_def : list field :=
 Definition ex2_bytes : list Z := [171; 141; 1; 2; 255; 9; 9; 2; 7; 7; 1; 6].
 Lemma ex2_static : wfb ex2_def = true /\ spare_free ex2_def = true /\ Forall (fun o => 0 <= o < 256) ex2_bytes.
 Proof. split; [reflexivity|]. split; [reflexivity|]. unfold ex2_bytes. repeat constructor; lia. Qed.
-Lemma ex2_decode : exists v, decode true ex2_def ex2_bytes = Ok (v, 12%nat) /\ encode ex2_def v = Ok ex2_bytes.
-Proof. eexists. vm_compute. split; reflexivity. Qed.
+Definition ex2_val : env :=
+ [(2%nat, VInt 171); (1%nat, VInt 17); (0%nat, VInt 5); (3%nat, VInt 130053); (4%nat, VDict [(0%nat, VBytes [9; 9])]);
+  (5%nat, VList [VDict [(0%nat, VInt 2); (1%nat, VBytes [7; 7])]; VDict [(0%nat, VInt 1); (1%nat, VBytes [6])]])].
+Lemma ex2_decode : decode true ex2_def ex2_bytes = Ok (ex2_val, 12%nat).
+Proof. vm_compute. reflexivity. Qed.
+Lemma ex2_encode : encode ex2_def ex2_val = Ok ex2_bytes.
+Proof. vm_compute. reflexivity. Qed.
 Lemma ex2_all : wfb ex2_def = true /\ spare_free ex2_def = true /\ Forall (fun o => 0 <= o < 256) ex2_bytes /\
-  exists v, decode true ex2_def ex2_bytes = Ok (v, 12%nat) /\ encode ex2_def v = Ok ex2_bytes.
-Proof. destruct ex2_static as [H1 [H2 H3]]. repeat split; try assumption. exact ex2_decode. Qed.
+  decode true ex2_def ex2_bytes = Ok (ex2_val, 12%nat) /\ encode ex2_def ex2_val = Ok ex2_bytes.
+Proof.
+  destruct ex2_static as [H1 [H2 H3]]. split; [exact H1|]. split; [exact H2|]. split; [exact H3|]. split; [exact ex2_decode|exact ex2_encode].
+Qed.
